@@ -8,7 +8,7 @@
    in any order of the enabled internal rules. *)
 From Coq Require Import List ZArith Bool.
 Import ListNotations.
-From Goat Require Import Model.Client Model.Server Proofs.ServerProofs Proofs.ServerInv Proofs.ServerLive Proofs.ServerTrace Proofs.ServerRoute Proofs.ServerDispatch.
+From Goat Require Import Model.Client Model.Server Proofs.ServerProofs Proofs.ServerInv Proofs.ServerLive Proofs.ServerTrace Proofs.ServerRoute Proofs.ServerDispatch Proofs.ServerProbe.
 Open Scope Z_scope.
 
 (* no reachable state is crashed: the places where the code dereferences the
@@ -93,6 +93,21 @@ Theorem C12_reset : forall s f s',
 Proof. exact srv_reset_step. Qed.
 Print Assumptions C12_reset.
 
+(* probe (Q): in every reachable quiescent state in which every handler has returned, the transport does not block
+   writes and the connection has not been ended - whatever the peer sent before -, the response built from the
+   return of EVERY unary handler (SvReply h f: f = unary_reply of handler h: the request's id and method, source and
+   destination swapped, the handler's reply as body, its error as status, its header / trailer metadata) has been
+   accepted by the transport. With C12_never_stalls (the request is read) and C12_dispatch_complete (it is handed
+   to a worker and, if it decodes, its handler is started) this is: a valid unary probe is answered with the
+   handler's reply under the same id. *)
+Theorem C12_probe : forall ls s, lrun init ls = Some s ->
+  quiescent s = true ->
+  (forall h k, nth_error (hs s) h = Some k -> h_returned k = true) ->
+  wblock s = false -> hctx_done s = false ->
+  forall h f, In (SvReply h f) (log s) -> In (SvWrite f) (log s).
+Proof. intros ls s H. apply (srv_probe nworkers ls s); [unfold nworkers; auto with arith | exact H]. Qed.
+Print Assumptions C12_probe.
+
 (* the hypotheses are met by a non-trivial reachable state: garbage, a stream that was opened, fed and closed,
    an undecodable unary request, and an answered unary request *)
 Definition ex_hdr (id : Z) (k : mkind) (e : env) : frame := mkFrame e k 2 1.
@@ -112,5 +127,7 @@ Definition ex_acts : list act :=
 Example C12_never_stalls_ex :
   exists s, lrun init (labels_of ex_acts) = Some s /\ quiescent s = true
             /\ forallb h_returned (hs s) = true /\ wblock s = false /\ hctx_done s = false
-            /\ length (hs s) = 2%nat /\ length (filter (fun e => match e with SvWrite _ => true | _ => false end) (log s)) = 5%nat.
+            /\ length (hs s) = 2%nat /\ length (filter (fun e => match e with SvWrite _ => true | _ => false end) (log s)) = 5%nat
+            /\ length (filter (fun e => match e with SvReply _ _ => true | _ => false end) (log s)) = 1%nat
+            /\ ureads (log s) = jobs (log s) /\ length (jobs (log s)) = 2%nat.
 Proof. eexists. vm_compute. repeat split. Qed.
